@@ -47,12 +47,14 @@ impl Compiler {
             // static height: a fused instruction pushes exactly one value; a failed attempt emits nothing
             r is Ok ==> final(self).height@ == hplus(old(self).height@, 1),
             r is Err ==> final(self).height@ == old(self).height@,
+            r is Err ==> final(self).locals_bound@ == old(self).locals_bound@,
             sym_resolve(old(self).symbols, varname@) is None ==> r is Err,
             gen_inv(*old(self)) ==> gen_inv(*final(self)),
-            sym_same(final(self).symbols, old(self).symbols), final(self).loop_contexts == old(self).loop_contexts, final(self).log@ == old(self).log@, final(self).loop_h@ == old(self).loop_h@,
+            sym_same(final(self).symbols, old(self).symbols), final(self).loop_contexts == old(self).loop_contexts, final(self).log@ == old(self).log@, final(self).loop_h@ == old(self).loop_h@, final(self).locals_bound@ >= old(self).locals_bound@,
             old(self).constants@.len() <= final(self).constants@.len(),
             forall|i: int| 0 <= i < old(self).constants@.len() ==> final(self).constants@[i] == old(self).constants@[i],
     {
+//@GHOST before_all="self.emit_opcode(opcode);" proof { if symbol.scope == Scope::Local { lemma_local_symbol_is_current(self.symbols, varname@); if self.locals_bound@ < symbol.index as int + 1 { self.locals_bound = Ghost(symbol.index as int + 1); } } }
 //@BODY file=compiler.rs fn=compile_const_var_infix_expression impl=Compiler sig="fn compile_const_var_infix_expression(&mut self, varname: &str, const_value: isize, operator: &Operator) -> Result<(), Error>" rules="R1;R4"
     }
 }
